@@ -22,6 +22,7 @@ func CmdSearch(args []string, seed int64) int {
 	n := fs.Int("n", 300, "DAGs to try")
 	keep := fs.Int("keep", 20, "DAGs to keep (smallest first)")
 	maxEv := fs.Int("maxev", 60, "event budget per DAG")
+	sealCascade := fs.Bool("sealcascade", false, "two epochs, the application seals inside a cascade; the first epoch is dumped with its seal frame")
 	out := fs.String("out", "found.ndjson", "output")
 	fs.Parse(args)
 	p, ok := profiles[*prof]
@@ -39,6 +40,11 @@ func CmdSearch(args []string, seed int64) int {
 		g := p.gen(r, k)
 		g.Epochs = 1
 		g.SealFrames = nil
+		if *sealCascade {
+			g.Epochs = 2
+			g.SealAtCascade = true
+			g.MutateVals = false
+		}
 		if g.EpochEvents > *maxEv {
 			g.EpochEvents = *maxEv
 		}
@@ -82,7 +88,14 @@ func CmdSearch(args []string, seed int64) int {
 			}
 			evs = append(evs, x)
 		}
-		b, _ := json.Marshal(map[string]interface{}{"w": w, "events": evs, "blocks": nil, "tag": *want})
+		rec2 := map[string]interface{}{"w": w, "events": evs, "blocks": nil, "tag": *want}
+		if *sealCascade {
+			if ep.SealFrame == 0 || !ep.Sealed {
+				continue
+			}
+			rec2["seal_frame"] = int(ep.SealFrame)
+		}
+		b, _ := json.Marshal(rec2)
 		res = append(res, found{len(evs), string(b)})
 	}
 	sort.SliceStable(res, func(i, j int) bool { return res[i].n < res[j].n })
